@@ -726,7 +726,7 @@ func (sm *SealManager) VerifyRotation(ctx context.Context, ns *namespace.Namespa
 
 	// Check if we already have this piece
 	found := false
-	for _, existing := range rotationConfig.RotationProgress {
+	for _, existing := range rotationConfig.VerificationProgress {
 		found = found || subtle.ConstantTimeCompare(existing, key) == 1
 		if found {
 			return nil, errors.New("given key has already been provided during this verify operation")
